@@ -635,6 +635,13 @@ class Exec:
             if m is not None:
                 yield st, m
                 return
+            if type(p).__name__ == "HListP":
+                from .store import hlist_method
+
+                m = hlist_method(self, obj, p, name)
+                if m is not None:
+                    yield st, m
+                    return
             if type(p).__name__ == "SymCandleP":
                 if name == "indicators":
                     yield st, p.ind_ref
